@@ -98,8 +98,11 @@ def gen_cases(rng, ctx):
     for i in range(8 if thorough else 3):
         tag = "%06x" % rng.below(1 << 24)
         u, pw, wrong = "canaryuser", "BINPW-%s-canary" % tag, "BINWRONG-%s-canary" % tag
-        l = line("bin_run", [[2, 0, 2], list(u.encode()), list(pw.encode()), list(wrong.encode())])
-        cases.append(Case(l, None, kind="process:trace-log", nontrivial=True, meta={"bin": True, "names": ["configured password", "rejected password", "their Basic tokens"]}))
+        label = "BINSNI-%s-canary" % tag
+        for logfile in (0, 1):
+            l = line("bin_run", [[2, logfile, 2], list(u.encode()), list(pw.encode()), list(wrong.encode()), [], list(label.encode())])
+            cases.append(Case(l, None, kind="process:trace-log" + ("-file" if logfile else ""), nontrivial=True,
+                              meta={"bin": True, "names": ["configured password", "rejected password", "their Basic tokens", "SNI credentials label"]}))
     # what TlsDemux::select returns is logged with {:?}: an SNI carrying a credentials label
     for i in range(20 if thorough else 6):
         label = ("SNILABEL-%06x-canary" % rng.below(1 << 24)).encode()
@@ -135,7 +138,7 @@ def judge(case, impl, model, spec, ctx):
         if lines < 20:
             return [("disagree", "the endpoint binary wrote only %d log lines at trace level" % lines)]
         if hits:
-            return [("violation", "the endpoint binary's own log at trace level (%d lines) contains a configured or rejected password, or a Basic token carrying one, in %d line(s)" % (lines, hits))]
+            return [("violation", "the endpoint binary's own log at trace level (%d lines) contains a configured or rejected password, a Basic token carrying one, or the credentials label of a server name, in %d line(s)" % (lines, hits))]
         return []
     if case.kind == "scrub-functions":
         out = []
